@@ -33,6 +33,27 @@ DESC = {
     'C12-c': 'let ident re-spanned to the call site (hygiene through macro_rules!)', 'C12-d': 'earlier capture definitions dropped before an Err-arm block operand',
     'C15-c': 'final try step built from `let` patterns (`let mut` gives invalid output)', 'C15-d': 'hoisted `??`/`->` block operands bypass their special expansion (panic / invalid output)',
     'C19-c': 'captures inside wrappers `.clone()`d', 'C19-d': 'bare `move` closures hoisted like blocks',
+    # round 3 (asked for corners that need something specific to manifest)
+    'C01-e': 'wrapper balance counted before the per-step reset: `~op >>> .. <<<` rejected', 'C01-f': 'typed `<->`: the two container types swapped',
+    'C02-e': 'block captures directly inside `??`/`?|>`/`?@`/`?|>@`/`?&!>` wrappers no longer hoisted', 'C02-f': 'async `??` inside a wrapper inspects the whole value instead of calling the value\'s own inspect',
+    'C03-b': '`~` ignored on operators without an expression operand (`~^^>`, `~|n>`, `~=>[]`, `~<->`)',
+    'C04-e': 'Err-arm hoisted operand name loses the branch index (later branch shadows the earlier one)',
+    'C05-e': 'failure scan order: continuing branches before finishing ones (not the lowest-numbered failure)',
+    'C06-e': 'no failure check when one branch is active in a non-final step', 'C06-f': 'failure check over the first N result variables instead of the active ones',
+    'C07-e': '`<| {block}` no longer hoisted: evaluated inside the spawned thread',
+    'C08-e': 'parallel step count wrong when the second-deepest branch precedes the deepest', 'C08-f': 'thread-name prefix cached per expansion site in a static',
+    'C09-e': 'tokio task created lazily at the first poll of its handle (operand awaited in place blocks earlier branches)', 'C09-f': '`lazy_branches(false)` switches task spawning off',
+    'C10-e': 'abort check only over branches that continue (later steps run after a finishing branch failed)', 'C10-f': '`?|>@` with hoisted block operand / as wrapper rebuilt as filter_map',
+    'C11-e': 'non-spawn `lazy_branches(true)`: hoisted blocks emitted inside the branch closure', 'C11-f': 'blocks inside a `?? >>>` wrapper not hoisted',
+    'C12-e': 'deferred wrapper opener does not start a step (captures see stale names)', 'C12-f': 'try-async: `let mut` names rebound without `mut` in non-final steps',
+    'C13-e': 'async try + transpose_results(true): `map` handler gets the raw Option/Result and always runs',
+    'C14-e': 'comma after an operand with an odd number of top-level `|` not taken as delimiter', 'C14-f': 'no operator recognised right after a punctuation token glued to it (`Vec<_>..len()`, `x?..m()`)',
+    'C15-e': 'non-transposing try macros with equal depths: transposer fold(None).unwrap() panics', 'C15-f': 'handler-only body reaches the generator\'s unwrap (panic instead of "at least 1 branch")',
+    'C16-e': 'transpose_results(false) ignored in steps with a single active branch', 'C16-f': 'futures_crate_path: leading `::` dropped',
+    'C17-e': 'no abort check for a lone live branch (value depends on the number of live siblings)', 'C17-f': 'hoisted definitions of a two-operand operator emitted in reverse order',
+    'C18-d': '`<| {block}` not hoisted: a panicking block inside an uninvoked wrapper closure never runs', 'C18-e': 'join_async_spawn!: handles awaited in branch order (panic of a later task waits for an earlier pending one)',
+    'C19-e': 'sequential macros with lazy_branches(true) build unused thread builders (allocation)',
+    'C20-e': 'process-wide memo of "accepted" operands records a rejected one', 'C20-f': 'thread-local memo of valid streams keyed by text only (Expr vs Type)',
 }
 rows = []
 for m in sorted(os.listdir(os.path.join(V, "seeded"))):
